@@ -179,6 +179,22 @@ def ops():
         net.map_obstacles_to_lanelets(sc.static_obstacles)
     O["lanelet_network.lookups"] = lookups
 
+    def merges(sc, pps):
+        # queries that BUILD new lanelets from the network's lanelets (merged routes); the network itself must stay as it is
+        from commonroad.scenario.lanelet import Lanelet
+        net = sc.lanelet_network
+        for l in net.lanelets[:6]:
+            Lanelet.all_lanelets_by_merging_successors_from_lanelet(l, net, 200.0)
+            for sid in l.successor[:2]:
+                s_ = net.find_lanelet_by_id(sid)
+                if s_ is not None:
+                    Lanelet.merge_lanelets(l, s_)
+            for pid in l.predecessor[:1]:
+                p_ = net.find_lanelet_by_id(pid)
+                if p_ is not None:
+                    Lanelet.merge_lanelets(p_, l)
+    O["lanelet.merged-routes"] = merges
+
     def lights(sc, pps):
         for t in sc.lanelet_network.traffic_lights:
             if t.traffic_light_cycle is not None and t.traffic_light_cycle.cycle_elements:
